@@ -3,9 +3,13 @@
 //! Each program is a script and two contracts (script → A → B nesting) made of valid blocks (stack grow/shrink/
 //! regrow, register push/pop, heap allocation in every frame, stores/clears/copies/hashes into the frame's own
 //! stack and heap through pointers derived from `$sp`/`$hp`, loads, logs, calls) and ends, in a random frame, with
-//! at most one deliberately faulting store (beyond `$sp`, below `$ssp` into the caller's frame / the code / the
-//! call frame / the transaction bytes, into the gap between the regions, into the caller's heap, spanning both
-//! regions, beyond the memory size).
+//! at most one deliberately faulting WRITER (beyond `$sp`, the stale stack above `$sp`, below `$ssp` into the caller's
+//! frame / stack, the code, the call frame, the transaction id and bytes, the gap between the regions, the caller's heap,
+//! spanning both regions, beyond the memory size). The writer is any memory-writing opcode driven down a chosen path
+//! (`plant_writer`): plain stores and copies, signature recovery with an unrecoverable and with a valid signature, hashes,
+//! block hash, coinbase, code root, CCP/BLDD data and zero-fill tails, wide-integer results including the `$err = 1`
+//! results, ECOP, storage reads of present and absent slots — so that the FAILURE / ALTERNATIVE write paths are aimed at
+//! memory the context does not own, not only the success paths. The whole memory is diffed after a panic as well.
 //!
 //! After EVERY instruction the whole accessible memory is diffed against the snapshot taken before it.
 //! Request line `step <opcode> <sspB> <spB> <hpB> <prevHpB> <fpB> <sspA> <spA> <balLo> <balHi> <txLo> <txHi> <csLo>
